@@ -1,3 +1,5 @@
+//go:build c05 || allprops
+
 package main
 
 import "verifharness/c05"
